@@ -116,6 +116,21 @@ type interp struct {
 	wgID    [3]uint32
 }
 
+// ty / vt are bounds-checked lookups (corrupt modules may name ids beyond the bound).
+func (it *interp) ty(id uint32) *Type {
+	if int(id) < len(it.p.ty) {
+		return it.p.ty[id]
+	}
+	return nil
+}
+
+func (it *interp) vt(id uint32) uint32 {
+	if int(id) < len(it.p.valType) {
+		return it.p.valType[id]
+	}
+	return 0
+}
+
 func (it *interp) trap(format string, a ...interface{}) {
 	msg := fmt.Sprintf(format, a...)
 	if it.curInst != nil {
@@ -239,7 +254,7 @@ func (it *interp) evalConst(in *Inst) (v Value, err string) {
 			panic(r)
 		}
 	}()
-	t := it.p.ty[in.Type]
+	t := it.ty(in.Type)
 	if t == nil {
 		return Value{}, fmt.Sprintf("constant %%%d has no type", in.Result)
 	}
@@ -290,7 +305,7 @@ func (it *interp) evalConst(in *Inst) (v Value, err string) {
 
 // newValue builds a zero (or all-poison) value of the given type.
 func (it *interp) newValue(tid uint32, poison bool) Value {
-	t := it.p.ty[tid]
+	t := it.ty(tid)
 	if t == nil {
 		it.trap("value of unknown type %%%d", tid)
 	}
@@ -466,7 +481,7 @@ func (it *interp) newFrame(fn *Function) *frame {
 func (it *interp) initGlobals(inv *invocation, ls [3]uint32) {
 	inv.gv = make([]Value, len(it.p.gvars))
 	for i, gv := range it.p.gvars {
-		pt := it.p.ty[gv.Type]
+		pt := it.ty(gv.Type)
 		if pt == nil || pt.Kind != TPointer {
 			continue // reported when used
 		}
@@ -505,7 +520,7 @@ func (it *interp) initGlobals(inv *invocation, ls [3]uint32) {
 }
 
 func (it *interp) fillBuiltin(v *Value, tid uint32, bi uint32, inv *invocation, ls [3]uint32) {
-	t := it.p.ty[tid]
+	t := it.ty(tid)
 	vec3 := func(a [3]uint32) {
 		if t.Kind == TVector && t.Count == 3 {
 			*v = comp([]Value{sc(uint64(a[0])), sc(uint64(a[1])), sc(uint64(a[2]))})
@@ -632,7 +647,7 @@ func (it *interp) exec(inv *invocation, fr *frame, in *Inst) {
 				lit |= uint64(ops[i].Words[1]) << 32
 			}
 			w := uint32(32)
-			if st := it.p.ty[it.p.valType[in.Arg(0)]]; st != nil && st.Kind == TInt {
+			if st := it.ty(it.vt(in.Arg(0))); st != nil && st.Kind == TInt {
 				w = st.Width
 			}
 			if lit&maskW(w) == s.Bits {
@@ -670,7 +685,7 @@ func (it *interp) exec(inv *invocation, fr *frame, in *Inst) {
 		caller := inv.stack[len(inv.stack)-1]
 		if in.Op == OpReturnValue {
 			it.set(caller, fr.retDst, rv)
-		} else if ct := it.p.ty[fr.callIn.Type]; ct != nil && ct.Kind != TVoid {
+		} else if ct := it.ty(fr.callIn.Type); ct != nil && ct.Kind != TVoid {
 			it.trap("OpReturn from a function whose call expects a value")
 		} else {
 			// a void call still defines its result id
@@ -700,7 +715,7 @@ func (it *interp) exec(inv *invocation, fr *frame, in *Inst) {
 		}
 		inv.stack = append(inv.stack, nf)
 	case OpVariable:
-		pt := it.p.ty[in.Type]
+		pt := it.ty(in.Type)
 		if pt == nil || pt.Kind != TPointer {
 			it.trap("OpVariable result type is not a pointer")
 		}
@@ -896,7 +911,7 @@ func (it *interp) indexValue(v Value, id uint32) int64 {
 		return 0
 	}
 	w := uint32(32)
-	if t := it.p.ty[it.p.valType[id]]; t != nil && t.Kind == TInt {
+	if t := it.ty(it.vt(id)); t != nil && t.Kind == TInt {
 		w = t.Width
 	}
 	return sext(v.Bits, w) // indexes are treated as signed (spec: OpAccessChain)
@@ -913,7 +928,7 @@ func (it *interp) scalarSize(t *Type) int64 {
 
 // chain applies one access-chain index.
 func (it *interp) chain(p *Pointer, ixv Value, ixID uint32) *Pointer {
-	t := it.p.ty[p.Type]
+	t := it.ty(p.Type)
 	if t == nil {
 		it.trap("access chain through unknown type %%%d", p.Type)
 	}
@@ -971,8 +986,8 @@ func (it *interp) chain(p *Pointer, ixv Value, ixID uint32) *Pointer {
 		if p.MatStride == 0 {
 			it.trap("matrix in buffer memory without MatrixStride")
 		}
-		col := it.p.ty[t.Elem]
-		es := it.scalarSize(it.p.ty[col.Elem])
+		col := it.ty(t.Elem)
+		es := it.scalarSize(it.ty(col.Elem))
 		if p.RowMajor {
 			np.Off = p.Off + ix*es
 			np.CompStride = p.MatStride
@@ -980,7 +995,7 @@ func (it *interp) chain(p *Pointer, ixv Value, ixID uint32) *Pointer {
 			np.Off = p.Off + ix*int64(p.MatStride)
 		}
 	case TVector:
-		es := it.scalarSize(it.p.ty[t.Elem])
+		es := it.scalarSize(it.ty(t.Elem))
 		if p.CompStride != 0 {
 			es = int64(p.CompStride)
 		}
@@ -1024,7 +1039,7 @@ func (it *interp) store(p *Pointer, v Value) {
 }
 
 func (it *interp) loadBuf(p *Pointer) Value {
-	t := it.p.ty[p.Type]
+	t := it.ty(p.Type)
 	switch t.Kind {
 	case TInt, TFloat:
 		sz := int64(t.Width / 8)
@@ -1067,7 +1082,7 @@ func (it *interp) chainConst(p *Pointer, i int64) *Pointer {
 }
 
 func (it *interp) storeBuf(p *Pointer, v Value) {
-	t := it.p.ty[p.Type]
+	t := it.ty(p.Type)
 	switch t.Kind {
 	case TInt, TFloat:
 		sz := int64(t.Width / 8)
@@ -1115,7 +1130,7 @@ func (it *interp) storeBuf(p *Pointer, v Value) {
 }
 
 func (it *interp) arrayLength(p *Pointer, member uint32) Value {
-	t := it.p.ty[p.Type]
+	t := it.ty(p.Type)
 	if t == nil || t.Kind != TStruct || int(member) >= len(t.Members) {
 		it.trap("OpArrayLength: operand is not a pointer to a struct with member %d", member)
 	}
@@ -1123,7 +1138,7 @@ func (it *interp) arrayLength(p *Pointer, member uint32) Value {
 		it.trap("OpArrayLength on non-buffer memory")
 	}
 	it.bufCheck(p, 0, "OpArrayLength")
-	at := it.p.ty[t.Members[member]]
+	at := it.ty(t.Members[member])
 	if at == nil || at.Kind != TRuntimeArray {
 		it.trap("OpArrayLength: member %d is not a runtime array", member)
 	}
@@ -1142,7 +1157,7 @@ func (it *interp) arrayLength(p *Pointer, member uint32) Value {
 func (it *interp) atomic(fr *frame, in *Inst, g func(uint32) Value) {
 	// pointer is always the first argument
 	p := it.ptr(g(in.Arg(0)))
-	t := it.p.ty[p.Type]
+	t := it.ty(p.Type)
 	if t == nil || (t.Kind != TInt && t.Kind != TFloat) {
 		it.trap("atomic on non-scalar type %s", it.m.TypeString(p.Type))
 	}
